@@ -117,6 +117,7 @@ pub fn build(seed: u64, p: &Prog) -> Built {
     for id in &ids { tb.contract_input(*id); }
     tb.fee_input();
     for id in &ids { tb.contract_output(id); }
+    tb.variable_output(fuel_vm::fuel_types::AssetId::zeroed());
     let checked = tb.build();
     let tx_size = fuel_vm::fuel_types::canonical::Serialize::size(checked.transaction()) as u64;
     let ready = checked.into_ready(0, params.gas_costs(), params.fee_params(), None).expect("ready");
